@@ -71,6 +71,32 @@ def judge_one(case, vectors, ctx, optcache):
     alg, k, values = case["alg"], case["k"], case["values"]
     name, kp = case.get("objective") or ["diff", None]
     ctx.evaluated()
+    if case.get("sums_only"):
+        # the cheap output type: the algorithm runs with the sums-only manager (a different code path in dp, ckk, bin arithmetic); the returned sum vector must be
+        # REACHABLE (one of O1's sorted sum-vectors) and optimal
+        r, names, vmap = C.run_partition_case(case, "Sums", ctx=ctx, timeout=12)
+        if r.timeout:
+            ctx.inconc("timeout:" + alg, case)
+            return
+        if not r.ok:
+            ctx.violation("exception" if r.exc is not None else "none_result", alg, case, dict(C.exc_witness(r, case), outputtype="Sums") if r.exc is not None else {"outputtype": "Sums"})
+            return
+        s = [exact(x) for x in r.value]
+        if tuple(sorted(s)) not in vectors:
+            ctx.violation("sums_output_is_not_a_reachable_sum_vector", alg, case, {"sums": s, "numbins": k})
+            return
+        got = O.objval(name, s, kp)
+        key = (name, kp)
+        if key not in optcache:
+            optcache[key] = O.opt_partition(values, k, name, kp, vectors)
+        if got != optcache[key]:
+            ctx.violation("suboptimal", alg, case, {"numbins": k, "n": len(values), "objective": name, "k_param": kp, "got": got, "opt": optcache[key], "sums": s, "outputtype": "Sums",
+                                                    "valid_partition": True})
+            return
+        ctx.held(key=(alg, case.get("cg_mask"), name, kp, tuple(sorted(values)), k, "Sums"), nontrivial=len(values) > k >= 2 and lpt_value(values, k, name, kp) != optcache[key],
+                 cls=f"{alg}/{name}/sums_only")
+        ctx.counters["sums_only_runs"] += 1
+        return
     r, names, vmap = C.run_partition_case(case, ctx=ctx, timeout=12)
     if r.timeout:
         ctx.inconc("timeout:" + alg, case)
@@ -204,6 +230,8 @@ def run_instance(cls, k, values, rng, ctx, algs=None, full_grid=False):
     for case in todo:
         if algs and case["alg"] not in algs:
             continue
+        if case["alg"] != "rnp" and rng.random() < 0.25:
+            case = dict(case, sums_only=True)
         judge_one(case, vectors, ctx, optcache)
 
 
@@ -236,8 +264,8 @@ def run_shard(spec, rng, ctx):
         while i < spec["max_instances"] and C.now() < end:
             if i % 8 == 5:
                 # complete Karmarkar-Karp / snp focus on cheap sizes (2-3 bins, 6-9 mid-sized values): instance volume for rare coincidences in their pruning
-                k = rng.choice([2, 2, 3])
-                vals = [rng.randint(1 if rng.random() < 0.9 else 0, rng.choice([30, 40, 100])) for _ in range(rng.randint(6, 9))]
+                k = rng.choice([2, 2, 3, 4, 4])
+                vals = [rng.randint(1 if rng.random() < 0.9 else 0, rng.choice([30, 40, 100, 254])) for _ in range(rng.randint(6, 9) if k < 4 else rng.randint(7, 8))]
                 vectors = O.sum_vectors(vals, k)
                 optcache = {}
                 base = {"kind": "partition", "k": k, "values": vals, "cls": "ckk_focus", "pres": rng.choice(["list", "list", "dict_str"]), "pres_seed": rng.randrange(1 << 30)}
